@@ -106,6 +106,13 @@ fn gen_c13(tier: &str, rng: &mut Rng, emit: &mut dyn FnMut(Op)) {
                 }
             }
         }
+        // other RCS keywords are content; a marker after a hunk header is still a marker
+        for d in [&b"$Id$"[..], b"$Id$\nkeep\n", b"$Revision: 1.2 $\n$Date$\n$Author: x $\n$Header$\n$Source: y $\nkeep\n", b"@@ \n$NetBSD",
+            b"--- a\n+++ b\n@@ -1 +1 @@\n-$NetBSD: old $\n+$NetBSD: new $\n ctx\n", b"@@ -1 +1 @@\nkeep\n"] {
+            for mode in ["f", "p"] {
+                emit(Op::new("digest.hash", &[alg.to_string().as_bytes(), mode.as_bytes(), b"", d]));
+            }
+        }
         // a line may BEGIN with the letters of the marker without the '$': it is kept
         for d in [&b"NetBSD make needs this\nkeep\n"[..], b"NetBSD\n", b"x\nNetBSD: y\n", b"etBSD$ x\n$ NetBSD\n", b"NetBSD$NetBS\n"] {
             for mode in ["f", "p"] {
